@@ -92,3 +92,29 @@ func VerifZoneSuffixRoundTrip() {
 	vnd.Assert(gotOff == off, "zone: the offset itself is recovered")
 	vnd.Cover(off < 0 && off > -3600, "negative sub-hour offset")
 }
+
+// VerifSegmentNameLiterals: a produced name in which one literal character (a dot of the extension or of
+// the path name, a separator of the format) is replaced by any other byte is not a segment of that path.
+func VerifSegmentNameLiterals() {
+	time.Local = time.UTC
+	fi := vnd.Choose("format", len(verifFormats))
+	f := verifFormats[fi]
+	pathName := []string{"cam1", "cam.1"}[vnd.Choose("pathName", 2)]
+	enc := []byte(Path{Start: verifInstants()[0], Path: pathName}.Encode(f))
+	// positions of the literal characters that are special in regular expressions: . + ( )
+	var pos []int
+	for i, c := range enc {
+		if c == '.' || c == '+' || c == '(' || c == ')' {
+			pos = append(pos, i)
+		}
+	}
+	vnd.Assume(len(pos) > 0)
+	k := pos[vnd.Choose("position", len(pos))]
+	c := vnd.Byte("replacement")
+	vnd.Assume(c != enc[k] && c != '/' && c != 0)
+	enc[k] = c
+	var d Path
+	ok := d.Decode(f, string(enc))
+	vnd.Assert(!ok || d.Path != pathName, "a name that differs from a produced one in a literal character is not a segment of that path")
+	vnd.Cover(true, "candidate checked")
+}
